@@ -22,6 +22,7 @@ import string
 import warnings
 
 import numpy as np
+from harness.common import hash_str
 
 from harness import common
 
@@ -751,7 +752,11 @@ def _case_contr(ctx, case, model_out):
     ctx.count(key, nontrivial=True, corr=True)
     _tally(ctx, case, m, n)
     m_svd, m_tsvd, m_v, m_u, m_e = model_out
-    no_trunc = SVDParameters(max_bond_dim=float("inf"), rel_tol=float("-inf"), total_tol=float("-inf"))
+    # every second case asks for renormalisation: with nothing truncated the kept spectrum is rescaled by
+    # sum(s)/sum(kept) = 1, so the factors must still contract to the tensor (round-4 seed C11-R4A)
+    renorm = bool(hash_str(repr(key)) % 2)
+    ctx.tally("contr_renorm_flag", renorm)
+    no_trunc = SVDParameters(max_bond_dim=float("inf"), rel_tol=float("-inf"), total_tol=float("-inf"), renorm=renorm)
     scale = _scale(t)
     mult = _mult(t)
     tol = TOL * mult
